@@ -290,6 +290,12 @@ def run_shard(ctx, spec):
         for ascii_only in (True, False):
             g = relang.Gen(mon.codes[fam], seed=ctx.seed * 13 + fi * 7 + spec['i'] * 1000 + ascii_only, ascii_only=ascii_only, maxrep=3)
             codes.extend(g.many(per // 2))
+    if spec['i'] % 4 == 2:
+        for fi, fam in enumerate(FAMS):
+            g = relang.Gen(mon.codes[fam], seed=ctx.seed * 19 + fi + spec['i'], ascii_only=True, maxrep=1, long_repeats=(45, 130, 700))
+            longs = [c for c in g.many(40) if len(c) > 40]
+            ctx.count('eval.codes-longer-than-40-characters', len(longs))
+            codes.extend(longs)
     if spec['i'] == 0:
         codes.extend(table_keys())
         codes.extend(['100.0cm', '60H100.0cm', '100H84.0cm8.50m13.00m', 'DT1.50K', 'DT 1.5 kg', 'SP7.260KG', 'sst', 'SST', 'SWT', 'swt',
